@@ -28,6 +28,8 @@ pub fn bed_autosql(c: &S) -> Option<String> {
 pub fn classify_bed(msg: &str) -> i128 {
     if msg.starts_with("Invalid autosql") {
         43
+    } else if msg.starts_with("Invalid options") {
+        80
     } else {
         classify(msg)
     }
